@@ -101,6 +101,7 @@ def run(chk):
     chk.rule("UNIQ", "every argument tuple has at most one cheapest overload and matching raises no internal error")
     chk.rule("LCA", "lca_type of every type pair / triple has a unique cheapest common ancestor or none")
     chk.rule("SIZED", "a sized int / float is accepted wherever the generic type is, with a result of the same family")
+    chk.rule("EXPRv", "result types of composite expressions (ColFn.dtype, CaseExpr.dtype) interpreted for every combination of child kinds: only element-wise functions of constants / case expressions of constants are Const; missing signature and non-boolean condition raise DataTypeError")
     chk.rule("CONST", "const arguments are accepted wherever non-const ones are; Const parameters reject column arguments")
     chk.rule("MODEL", "the matcher source has the structure the model M1-M6 assumes (const rule, const-preserving type-variable substitution, uniqueness assertion, strict zips)")
     chk.rule("XMODEL", "the hand-written trie-matching model agrees with the interpreted source of SignatureTrie / best_signature_match (subset in quick, whole quick universe in thorough)")
@@ -260,6 +261,10 @@ def run(chk):
     _model_conformance(chk, m)
 
     # ---- XMODEL: hand-written trie walk vs interpreted source of ops/signature.py
+    from .. import colexprsim
+    from ..model import model_of as _mo
+
+    colexprsim.report(chk, _mo(chk), "EXPRv", ["ColFn.dtype", "CaseExpr.dtype"], floor=25)
     _xmodel(chk, cat, thorough)
 
     # ---- CONSTREJ: type checks outside the overload matcher (when / filter / join on / cast ...)
